@@ -115,6 +115,13 @@ Theorem C18_tree_inverse_restores : forall leaves : list (list bool * list R * l
 Proof. exact (tree_inverse_restores rO rI radd rmul rsub ropp Rth). Qed.
 End C18.
 
+(* trees, key side (translated from structured_rotation_pytree / inverse_structured_rotation_pytree):
+   leaf l is rotated and un-rotated with the same key, split index l of the tree key; leaves differ *)
+Theorem C18_tree_leaf_keys : forall (k : list nat) (l l' : nat),
+  (rot_pytree_leaf_key k l = inv_pytree_leaf_key k l /\ rot_pytree_leaf_key k l = (k ++ [l])%list) /\
+  (rot_pytree_leaf_key k l = rot_pytree_leaf_key k l' -> l = l').
+Proof. exact (fun k l l' => conj (leaf_keys_shared k l) (leaf_keys_distinct k l l')). Qed.
+
 (* non-vacuity: the integer instance the correspondence evaluates *)
 Example C18_example :
   zwht 2 [1; 2; 3; 4] = WOk [10; -2; -4; 0] /\ zwht 4 [1; 2; 3; 4] = WOk [10; -2; -4; 0] /\
@@ -142,3 +149,4 @@ Print Assumptions C18_inverse_restores.
 Print Assumptions C18_pad_signs_irrelevant.
 Print Assumptions C18_rotation_injective_in_signs.
 Print Assumptions C18_tree_inverse_restores.
+Print Assumptions C18_tree_leaf_keys.
